@@ -852,10 +852,73 @@ fn check_pair(l: &CapSide, r: &CapSide, rt: &tokio::runtime::Runtime, gr_part: b
     out
 }
 
+/// Part (iii): the prefix test accept_connection applies to decide whether an unknown address
+/// belongs to a dynamic-neighbour prefix (`IpNet::contains`), for EVERY prefix length of both
+/// address families: the prefix itself, the prefix with each single bit flipped, the first and the
+/// last address of the prefix and their outside neighbours, against integer masking.
+fn prefix_membership(rep: &mut Report) {
+    let mut n = 0u64;
+    let mut bad: BTreeMap<String, String> = BTreeMap::new();
+    // IPv4
+    let base4: u32 = 0xac_5a_c3_96; // 172.90.195.150: mixed bit pattern in every octet
+    for len in 0..=32u32 {
+        let mask: u32 = if len == 0 { 0 } else { u32::MAX << (32 - len) };
+        let net = base4 & mask;
+        let prefix: packet::IpNet = format!("{}/{}", Ipv4Addr::from(net), len).parse().unwrap();
+        let mut probes: Vec<u32> = vec![net, net | !mask, net.wrapping_sub(1), (net | !mask).wrapping_add(1), base4];
+        for b in 0..32 {
+            probes.push(net ^ (1u32 << b));
+            probes.push(base4 ^ (1u32 << b));
+        }
+        for a in probes {
+            let want = a & mask == net;
+            let got = prefix.contains(&IpAddr::V4(Ipv4Addr::from(a)));
+            n += 1;
+            if want != got {
+                bad.entry(format!("C16/dynamic-prefix-match/v4/{}", if got { "outside-address-admitted" } else { "inside-address-refused" })).or_insert_with(|| format!("{} {} {}/{} (len % 8 = {})", Ipv4Addr::from(a), if got { "is treated as inside" } else { "is treated as outside" }, Ipv4Addr::from(net), len, len % 8));
+            }
+        }
+    }
+    // IPv6
+    let base6: u128 = 0x2001_0db8_a5c3_965a_3c69_f00f_55aa_c3a5;
+    for len in 0..=128u32 {
+        let mask: u128 = if len == 0 { 0 } else { u128::MAX << (128 - len) };
+        let net = base6 & mask;
+        let prefix: packet::IpNet = format!("{}/{}", std::net::Ipv6Addr::from(net), len).parse().unwrap();
+        let mut probes: Vec<u128> = vec![net, net | !mask, net.wrapping_sub(1), (net | !mask).wrapping_add(1), base6];
+        for b in 0..128 {
+            probes.push(net ^ (1u128 << b));
+            probes.push(base6 ^ (1u128 << b));
+        }
+        for a in probes {
+            let want = a & mask == net;
+            let got = prefix.contains(&IpAddr::V6(std::net::Ipv6Addr::from(a)));
+            n += 1;
+            if want != got {
+                bad.entry(format!("C16/dynamic-prefix-match/v6/{}", if got { "outside-address-admitted" } else { "inside-address-refused" })).or_insert_with(|| format!("{} {} {}/{} (len % 8 = {})", std::net::Ipv6Addr::from(a), if got { "is treated as inside" } else { "is treated as outside" }, std::net::Ipv6Addr::from(net), len, len % 8));
+            }
+        }
+        // the other family never matches
+        if prefix.contains(&IpAddr::V4(Ipv4Addr::new(32, 1, 13, 184))) {
+            bad.entry("C16/dynamic-prefix-match/cross-family".into()).or_insert_with(|| format!("an IPv4 address is inside {}/{}", std::net::Ipv6Addr::from(net), len));
+        }
+    }
+    rep.evaluations += n;
+    rep.distinct_nontrivial += n;
+    for (sig, what) in bad {
+        rep.violation(Violation { sig, what: format!("dynamic-neighbour prefix test: {what}"), case: "prefix-membership".into() });
+    }
+    rep.notes.push(format!("c16-dynamic-prefix-match: {n} (prefix, address) pairs: every prefix length of IPv4 and IPv6 x (prefix, broadcast, their outside neighbours, every single-bit flip) against integer masking"));
+}
+
 pub(crate) fn run(replay: Option<&str>) -> Report {
     let mut rep = Report::new("C16", "hd-c16");
     let ms = accept_models();
     if let Some(case) = replay {
+        if case == "prefix-membership" {
+            prefix_membership(&mut rep);
+            return rep;
+        }
         if let Some(rest) = case.strip_prefix("caps#") {
             let mut it = rest.split('#');
             let thorough = it.next() == Some("t");
@@ -918,5 +981,6 @@ pub(crate) fn run(replay: Option<&str>) -> Report {
         rep.notes.push(format!("c16-capability-pairs[{}]: {} lists per side, {} ordered pairs, all evaluated", if grp { "gr/llgr" } else { "codec/fsm" }, n, total));
     }
     rep.distinct_nontrivial += rep.evaluations - before;
+    prefix_membership(&mut rep);
     rep
 }
